@@ -8,6 +8,9 @@ import srvprop, vlib
 def run(ctx):
     ctx.model_check('H2Teardown', 'H2Teardown.cfg', workers=8)
     ctx.model_expect_violation('H2Teardown', 'H2Teardown_asfound.cfg', 'violated', workers=8)
+    # the shared writer queue: a producer parked on a full queue is let go when the write loop dies (seeded change C17-5)
+    ctx.model_check('SrvWriterQueue', 'SrvWriterQueue.cfg', workers=2)
+    ctx.model_expect_violation('SrvWriterQueue', 'SrvWriterQueue_bad2.cfg', 'NoProducerStuck', workers=2)
     srvprop.run(ctx, 'C17')
     pool_pass(ctx)
 
